@@ -47,6 +47,7 @@ import PyhamModel.Lemmas.LineageCount
 import PyhamModel.Lemmas.FilterIdentical
 import PyhamModel.Lemmas.FilterFaults
 import PyhamModel.Lemmas.Meaning
+import PyhamModel.Lemmas.FamilyProfile
 namespace Pyham.Props
 open Pyham
 
@@ -350,6 +351,29 @@ theorem C09_root_and_total (H : Ham) :
 
 /-! ## C10 — per-family tree profiles add up to the whole-dataset profile -/
 
+/-- **the tree profile of a single HOG** (first sentence of C10): at every node `i :: u` other than the HOG's own taxon,
+    `nbr` counts the family's members living at the node, `dupl` those of them that arose by duplication, `retained` the
+    others (`nbr = dupl + retained`), `lost` the family's members at the parent node none of whose children lives at the
+    node, and no gain is reported; at the HOG's own taxon only the number of members there is reported -/
+theorem C10_family_profile_meaning (top : Node) (ha : top.aligned = true) (i : Nat) (u : Taxon)
+    (hne : ((i :: u) == top.tx) = false) :
+    (profileHogAt top (i :: u)).nbr = ((locs [] top).filter fun l => l.node.tx == i :: u).length ∧
+    on (profileHogAt top (i :: u)).dupl =
+      (((locs [] top).filter fun l => l.node.tx == i :: u).filter fun l => l.node.dup.isSome).length ∧
+    on (profileHogAt top (i :: u)).retained =
+      (((locs [] top).filter fun l => l.node.tx == i :: u).filter fun l => !l.node.dup.isSome).length ∧
+    (profileHogAt top (i :: u)).nbr =
+      on (profileHogAt top (i :: u)).dupl + on (profileHogAt top (i :: u)).retained ∧
+    on (profileHogAt top (i :: u)).lost =
+      (((locs [] top).filter fun l => l.node.tx == u).filter
+        fun x => !(x.node.kids.any fun c => c.tx == i :: u)).length ∧
+    (profileHogAt top (i :: u)).gain = none :=
+  Pyham.C10_family_profile_meaning top ha i u hne
+
+theorem C10_family_profile_root (top : Node) :
+    profileHogAt top top.tx = { tx := top.tx, nbr := ((locs [] top).filter fun l => l.node.tx == top.tx).length } :=
+  Pyham.C10_family_profile_root top
+
 /-- at every non-root node of the tree the six numbers of the whole-dataset profile are the sums of
     the per-family numbers, with singletons counted as gains at their species and each family root as
     a gain at its taxon -/
@@ -583,6 +607,21 @@ theorem C15_xref (H : Ham) (g : GeneRec) (hg : g ∈ H.genes) (k v : String) (hx
 theorem C15_mrca_set_lookup (H : Ham) (gs : List Taxon) (t : Taxon) (h : H.ancestralGenomeByMrca gs = .ok t) :
     (∀ g ∈ gs, t <:+ g) ∧ (∀ c, (∀ g ∈ gs, c <:+ g) → c <:+ t) ∧ t ∈ H.ancestralTaxa :=
   Pyham.C15_mrca_set_lookup H gs t h
+
+/-- **genomes and taxa**: every listed ancestral genome is returned by its tree node and -- once the taxonomy was
+    accepted -- by its name; every declared species is returned by its name; a name returns a taxon iff exactly one
+    node carries it; the common ancestor of two genomes is returned for the pair; unknown species names raise KeyError -/
+theorem C15_genome_lookups (H : Ham) :
+    (∀ t ∈ H.ancestralTaxa, H.ancestralGenomeByTaxon t = .ok t) ∧
+    (H.tree.namesOk H.naming = true → ∀ t ∈ H.ancestralTaxa, ∀ s, H.tree.nameAt H.naming t = some s →
+        H.ancestralGenomeByName s = .ok t) ∧
+    ((H.species.map (·.1)).Nodup → ∀ p ∈ H.species, H.extantGenomeByName p.1 = .ok p.2) ∧
+    (∀ s, s ∉ H.species.map (·.1) → H.extantGenomeByName s = .error .key) ∧
+    (∀ s p, H.taxonByName s = .ok p ↔ H.tree.findByName H.naming s = [p]) ∧
+    (∀ g1 g2, g1 ≠ g2 → mrca2 g1 g2 ∈ H.ancestralTaxa → H.ancestralGenomeByMrca [g1, g2] = .ok (mrca2 g1 g2)) :=
+  ⟨fun t ht => C15_ancestral_by_taxon H t ht, fun hok t ht s hs => C15_ancestral_by_name H hok t ht s hs,
+   fun hn p hp => C15_extant_by_name H hn p hp, fun s h => C15_extant_unknown H s h,
+   fun s p => C15_taxon_by_name H s p, fun g1 g2 hne ht => C15_mrca_lookup H g1 g2 hne ht⟩
 
 theorem C15_never_ambiguous (T : STree) (nm : Naming) (h : taxonomyBuild T nm = .ok ()) (s : String) :
     (∀ p q, p ∈ T.leafTaxa → q ∈ T.leafTaxa → T.nameAt nm p = some s → T.nameAt nm q = some s → p = q) ∧
